@@ -13,7 +13,7 @@
    uint32 key/value lengths). *)
 From Verif Require Import Lib.Base Mkvs.Trie Mkvs.HashProofs Gen.ProofConsts
   MkvsProof.Model MkvsProof.Sound MkvsProof.Complete MkvsProof.Examples MkvsProof.Final
-  MkvsProof.Remote MkvsProof.Iter MkvsProof.IterProofs MkvsProof.IterSound MkvsProof.IterFinal
+  MkvsProof.Remote MkvsProof.Iter MkvsProof.IterProofs MkvsProof.IterSound MkvsProof.IterFinal MkvsProof.Evict
   Mkvs.Overlay Mkvs.Iter.
 
 (* G: the constants read from syncer/proof.go are the ones the model was
@@ -249,3 +249,44 @@ Theorem remote_tree_safe_bounded_cache_refuted :
     plookup_go H true 0 k (run_steps H (root_hash H t) steps) = Absent.
 Proof. exact remote_tree_safe_bounded_cache_refuted_l. Qed.
 Print Assumptions remote_tree_safe_bounded_cache_refuted.
+
+(* ---------------- bounded cache: what the lock guarantees ---------------- *)
+(* cache.tryRemoveNode with the check order of the code (lock test before the
+   "not yet in the LRU" test), for ANY victim, any set of committed nodes (any
+   capacity >= 1) with the path from the victim down to the locked pointer
+   committed (they were dereferenced by the running query) and the locked
+   pointer itself possibly not yet committed: the attempt aborts, and the locked
+   subtree as well as every sibling to the right of the path -- all that the
+   running Get / in-order iteration still has to read -- is untouched.  What IS
+   cleared (LeafNode / Left links of path nodes) lies behind the running query;
+   it is the known bounded-cache finding and only affects later operations of
+   the same reader (remote_tree_safe_bounded_cache_refuted).  Not mechanised:
+   the induction over a whole fresh query that composes this step with
+   remote_get_safe / piter_sound; the harness checks it on the implementation
+   (fresh reader per query, node capacities 2..6). *)
+Theorem lock_protects_remainder : forall committed locked rel p pid cur,
+  locked = pid ++ rel ->
+  sub_at p rel = Some cur -> has_node cur = true ->
+  (forall pre suf, rel = pre ++ suf -> suf <> [] -> committed (pid ++ pre) = true) ->
+  snd (try_remove committed locked false p pid) = false /\
+  sub_at (fst (try_remove committed locked false p pid)) rel = Some cur /\
+  remainder (fst (try_remove committed locked false p pid)) rel = remainder p rel.
+Proof. exact lock_protects_remainder_l. Qed.
+Print Assumptions lock_protects_remainder.
+
+(* With the two tests swapped the guarantee is false: the attempt succeeds on the
+   not-yet-committed locked pointer, the right sibling is cleared, and an
+   iterator frame resuming at the victim reports the end of the tree although a
+   present entry remains (with the code's order the same frame finds it). *)
+Theorem swapped_lock_order_refuted :
+  snd (try_remove ev_committed ev_locked false ev_p []) = false /\
+  remainder (fst (try_remove ev_committed ev_locked false ev_p [])) ev_locked = remainder ev_p ev_locked /\
+  snd (try_remove ev_committed ev_locked true ev_p []) = true /\
+  remainder (fst (try_remove ev_committed ev_locked true ev_p [])) ev_locked <> remainder ev_p ev_locked /\
+  fst (pit_next [1; 2; 4] [mkP VAtLeft [] ev_p 0 []]) = F3 ([128], [13]) [mkP VAfter [] ev_p 0 []] /\
+  fst (pit_next [1; 2; 4] [mkP VAtLeft [] (fst (try_remove ev_committed ev_locked false ev_p [])) 0 []])
+    = F3 ([128], [13]) [mkP VAfter [] (fst (try_remove ev_committed ev_locked false ev_p [])) 0 []] /\
+  fst (pit_next [1; 2; 4] [mkP VAtLeft [] (fst (try_remove ev_committed ev_locked true ev_p [])) 0 []]) = N3 /\
+  tlookup [128] Examples.ex_t = Some [13].
+Proof. exact swapped_lock_order_refuted_l. Qed.
+Print Assumptions swapped_lock_order_refuted.
